@@ -248,3 +248,139 @@ def taut_check(prog):
     obs.append(Ob('TAUT-CHECK', 'asm/', 0, '*', 'comparisons:%d' % (ncmp // 1000 * 1000), DISCHARGED, '',
                   '%d comparisons in branch conditions of asm/*.cpp, none compares an operand with a copy of itself' % ncmp, True))
     return RuleResult('TAUT-CHECK', obs, 1, {'comparisons': ncmp})
+
+
+# ---------------------------------------------------------------------------------------------------------------------
+NEG_INF, POS_INF = float('-inf'), float('inf')
+
+
+def _param_ranges(prog, fn, callsites):
+    """Integer parameters whose argument is a constant at every call site: decl id -> (min, max)."""
+    from nk.facts import call_args
+    out = {}
+    cs = callsites.get(fn.key, [])
+    if not cs:
+        return out
+    for i, p in enumerate(fn.params()):
+        lo = hi = None
+        ok = True
+        for c in cs:
+            a = call_args(c)
+            if i >= len(a) or const(a[i]) is None:
+                ok = False
+                break
+            v = const(a[i])
+            lo = v if lo is None else min(lo, v)
+            hi = v if hi is None else max(hi, v)
+        if ok and lo is not None:
+            out[p['d']] = (lo, hi)
+    return out
+
+
+def _sat_set(n, pr, subject):
+    """Over-approximation of the values of the one tested expression for which condition n can be true, as a list of
+    closed intervals; subject[0] is fixed by the first comparison met.  None = no information (everything)."""
+    n = strip(n)
+    k = n['k']
+    if k == 'BinaryOperator' and n.get('op') in ('&&', '||'):
+        a = _sat_set(kids(n)[0], pr, subject)
+        b = _sat_set(kids(n)[1], pr, subject)
+        if n['op'] == '||':
+            if a is None or b is None:
+                return None
+            return a + b
+        if a is None:
+            return b
+        if b is None:
+            return a
+        out = []
+        for (l1, h1) in a:
+            for (l2, h2) in b:
+                lo, hi = max(l1, l2), min(h1, h2)
+                if lo <= hi:
+                    out.append((lo, hi))
+        return out
+    if k == 'BinaryOperator' and n.get('op') in ('<', '>', '<=', '>=', '=='):
+        l, r = kids(n)
+        op = n['op']
+
+        def rng(x):
+            v = const(x)
+            if v is not None:
+                return (v, v)
+            s = strip(x, casts=True)
+            if s['k'] == 'DeclRefExpr' and s.get('d') in pr:
+                return pr[s['d']]
+            return None
+        rl, rr = rng(l), rng(r)
+        if rr is None and rl is not None:
+            l, r, rl, rr = r, l, rr, rl
+            op = {'<': '>', '>': '<', '<=': '>=', '>=': '<=', '==': '=='}[op]
+        if rr is None or rl is not None:
+            return None
+        s = strip(l, casts=True)
+        if any(x['k'] in ('CallExpr', 'CXXMemberCallExpr') for x in walk(s)):
+            return None
+        txt = show(s)
+        if subject[0] is None:
+            subject[0] = txt
+        if subject[0] != txt:
+            return None
+        lo, hi = rr
+        if op == '<':
+            return [(NEG_INF, hi - 1)]
+        if op == '<=':
+            return [(NEG_INF, hi)]
+        if op == '>':
+            return [(lo + 1, POS_INF)]
+        if op == '>=':
+            return [(lo, POS_INF)]
+        return [(lo, hi)]
+    return None
+
+
+def range_contra(prog):
+    """RANGE-CONTRA: the condition that guards a range diagnostic (print_error_range in its true arm) is satisfiable.
+    The condition is read as a set of values of the one expression it compares with constants (or with parameters that are
+    constants at every call site): `v < low && v > high` with low <= high is the empty set -- the check can never fire
+    and every value reaches the encoder."""
+    from nk.facts import callee as _callee
+    callsites = {}
+    for fn in prog.fns.values():
+        if not fn.blocks:
+            continue
+        for c in fn.calls():
+            if c.get('ck'):
+                callsites.setdefault(c['ck'], []).append(c)
+    obs = []
+    n_checks = 0
+    for fn in sorted(prog.fns.values(), key=lambda f: (f.file, f.line)):
+        if not fn.blocks or not fn.file.startswith('asm/'):
+            continue
+        pr = None
+        for n in fn.nodes.values():
+            if n['k'] != 'IfStmt' or len(kids(n)) < 2:
+                continue
+            cond, then = kids(n)[0], kids(n)[1]
+            if cond is None or then is None:
+                continue
+            if not any((_callee(x) or '').split('(')[0] == 'print_error_range' for x in walk(then)):
+                continue
+            if pr is None:
+                pr = _param_ranges(prog, fn, callsites)
+            n_checks += 1
+            subj = [None]
+            s = _sat_set(cond, pr, subj)
+            if s is not None and len(s) == 0:
+                obs.append(Ob('RANGE-CONTRA', fn.file, cond['l'], fn.q, show(cond)[:60], VIOLATED,
+                              '`%s` can never be true (%s): the range diagnostic it guards is dead, no value of `%s` is rejected here '
+                              'and whatever does not fit the field is truncated' % (
+                                  show(cond), 'with %s' % ', '.join('%s in [%d, %d]' % (p['n'], pr[p['d']][0], pr[p['d']][1])
+                                                                    for p in fn.params() if p['d'] in pr) if pr else 'constants',
+                                  subj[0])))
+            else:
+                obs.append(Ob('RANGE-CONTRA', fn.file, cond['l'], fn.q, show(cond)[:60], DISCHARGED, '',
+                              'the guard of the range diagnostic is satisfiable', False))
+    if n_checks < 300:
+        raise AnalysisBroken('RANGE-CONTRA: only %d guarded range diagnostics in asm/' % n_checks)
+    return RuleResult('RANGE-CONTRA', obs, 300, {'checks': n_checks})
